@@ -475,7 +475,9 @@ def check_nfa_history(ctx, ndef, hist, other_defs, tag):
             problems.append(f"query #{i} {q}: the implementation's result and the model's differ in language: {diff}, word {w!r}")
             if w is not None and val.accepts_input(w) != mk_nfa(ndef).accepts_input(w[::-1] if q[0] == "reverse" else w):
                 confirmed = True    # the result disagrees with its own source on that word (implementation alone)
-        if size_impl != want:
+        # the number of states is fixed by a property only for minimised results (C05/C07: the minimum of the result's
+        # kind); an un-minimised subset automaton, eliminate_lambda and reverse may be built with fewer or more states
+        if q[0] == "from_nfa" and q[2] and size_impl != want:
             problems.append(f"query #{i} {q}: the implementation's result has {size_impl} states, the model's {want}")
     a = cmp_ans[-1]
     if a[0] != 1 or a[1] != 1 or a[2] != [1, []]:
